@@ -256,6 +256,20 @@ def handleImages (cmd : String) (args : List Sx) : Option String :=
     let entries := if order = "sorted" then entries.mergeSort (fun a b => decide (a ≤ b)) else entries
     pure (";".intercalate values ++ " | keys " ++ ";".intercalate entries
       ++ " | fetched " ++ ";".intercalate fetched)
+  | "imgdocs", [.list rs, .list ds] => do
+    -- `imgdocs (resource…) ((call…) …)` → per document (separated by ` | `) the URLs it fetched (`;`), then `=>` and
+    -- what each request returned (`;`)
+    let table ← allSome resource? rs
+    let docs ← allSome (fun d => d.list?.bind (allSome call?)) ds
+    let results := runDocs (fetcherOf table) [] docs
+    let one (rs : List Result) : String :=
+      ";".intercalate (rs.flatMap (·.fetched)) ++ " => " ++ ";".intercalate (rs.map (fun r => match r.value with
+        | .ok (.image none) => "none"
+        | .ok (.image (some (.svg _ _))) => "svg"
+        | .ok (.image (some (.raster _ fmt _ _))) => showOutFmt fmt
+        | .ok (.bytes _) => "bytes"
+        | .error e => errClass e))
+    pure (" | ".intercalate (results.map one))
   | "imgkey", [u, o, opts] => do pure (keyStr (← u.atom?) (← orientation? o) (← opts? opts))
   | "diskops", ops => do
     -- `(set k b n)` bytes number n, `(set k o n)` an object, `(set k none)`, `(get k)`, `(has k)`
